@@ -2329,6 +2329,12 @@ class InventoryWorkingTree(WorkingTree, MutableInventoryTree):
                     )
                 self.set_parent_trees(parent_trees)
                 last_rev = parent_trees[0][0]
+            elif not _mod_revision.is_null(old_tip) and old_tip != last_rev:
+                # The tree was already based on the new branch tip (it was
+                # behind its branch), so the parents were not rewritten above.
+                # old_tip has just been merged in: record it as a pending
+                # merge, otherwise the local commits are left unreferenced.
+                self.add_parent_tree((old_tip, other_tree))
             return len(nb_conflicts)
 
     def pull(
